@@ -13,6 +13,7 @@ from cohdl._core._intrinsic_operations import AssignMode
 from cohdl._core._primitive_type import is_primitive, is_primitive_type
 from cohdl._core._integer import Integer
 from cohdl._core._boolean import _Boolean, Null, Full, true, false
+from cohdl._core._bit import Bit
 from cohdl._core._bit_vector import BitVector
 from cohdl._core._signed import Signed
 from cohdl._core._unsigned import Unsigned
@@ -858,7 +859,17 @@ class TypeQualifier(TypeQualifierBase, metaclass=_TypeQualifier):
 
         if value is None or is_primitive(value) and value._is_uninitialized():
             return intr_op._IntrinsicDeclaration(self, None)
+
+        self._check_initial_value(value)
         return intr_op._IntrinsicDeclaration(self, value)
+
+    def _check_initial_value(self, value):
+        # trial assignment to check whether a runtime variable initial value
+        # is compatible (same rules as for all other assignments)
+        if isinstance(value, TypeQualifier) and isinstance(
+            self._value, (Bit, BitVector)
+        ):
+            self._value.copy()._assign(_decay(value))
 
     @_intrinsic_replacement(__bool__)
     def _bool_replacement(self):
@@ -1382,6 +1393,8 @@ class Signal(TypeQualifier):
 
         if value is None or is_primitive(value) and value._is_uninitialized():
             return intr_op._IntrinsicDeclaration(self, None, delayed_init)
+
+        self._check_initial_value(value)
         return intr_op._IntrinsicDeclaration(self, value, delayed_init)
 
     #
